@@ -93,4 +93,21 @@ def expected : WOp → List RVal
   | .carray t vs => vs.map fun v => .val t (norm t v)
   | .strArray ss => [.bytes (ss.flatMap id)]
 
+/-- operations that exist in the library: a C array `T[N]` can only be streamed into a StreamBuffer, and a
+    `char[N]` is a C string there (`operator<<(char*)`, modelled by `.cstr`), not an array of items.
+    Every other operation exists for every class. -/
+def WF (k : Kind) : WOp → Prop
+  | .carray t _ => k = .sb ∧ t ≠ .ch
+  | _ => True
+
+/-- reading an array back with the array operator `stream >> Array<T>` (File, Socket; commit cdda882) instead of
+    one scalar read per item -/
+def mirrorA : WOp → List ROp
+  | .array t vs => [.array t vs.length]
+  | op => mirror op
+
+def expectedA : WOp → List RVal
+  | .array t vs => [.vals t (vs.map (norm t))]
+  | op => expected op
+
 end C16
